@@ -11,3 +11,8 @@ func VerifRoute(svc *protogen.Service, m *protogen.Method) (verb, path string, p
 	c := (&Generator{}).buildRPCMethodConfig(svc, m)
 	return c.httpMethod, c.fullPath, c.pathParams, c.queryParams, c.hasBody
 }
+
+// VerifGenerate runs the Go client generator over the file set.
+func VerifGenerate(files []*protogen.File) error {
+	return New(&protogen.Plugin{Files: files}).Generate()
+}
